@@ -169,7 +169,7 @@ def run(chk):
                     nontrivial=False)
         if ok:
             readers.setdefault(f, []).append(n)
-    for cf in cm_funcs:
+    for cf in list(cm_funcs) + list(other_writers):
         readers.pop(cf, None)
 
     # ------------------------------------------------------------------ R17.4 shape of every reader
